@@ -27,7 +27,7 @@ ASSUMPTIONS = [
     'converted between offsets by the host datetime type: an error is accepted for operations on it, a returned value must still be right',
     'only fixed offsets are generated (yaql has no named zones)',
 ]
-REQUIRED = {'cases': 3000, 'kind.naive': 200, 'kind.aware-zero': 200, 'kind.aware-nonzero': 500, 'kind.yaql-built': 500,
+REQUIRED = {'zone.non-utc-process-shards': 4, 'kind.aware-dst': 500, 'cases': 3000, 'kind.naive': 200, 'kind.aware-zero': 200, 'kind.aware-nonzero': 500, 'kind.yaql-built': 500,
             'agree': 2500, 'agree.out-of-range': 5, 'identity.checked': 1000, 'pr.*': 45}
 
 EPOCH_ORD = datetime.date(1970, 1, 1).toordinal()
@@ -379,15 +379,51 @@ def _round_half_even(a, n):
 
 def plan(tier, seed):
     thorough = tier == 'thorough'
-    return [{'name': 'dates-%d' % p, 'kind': 'dates', 'count': 1200 if thorough else 50, 'timeout': 3000} for p in range(16)]
+    # the process time zone is no part of the meaning: half of the shards run under a non-UTC TZ
+    zones = [None, 'JST-9', None, 'EST5EDT,M3.2.0,M11.1.0', None, 'NPT-5:45', None, 'CET-1CEST,M3.5.0,M10.5.0/3']
+    shards = []
+    for p in range(16):
+        sp = {'name': 'dates-%d' % p, 'kind': 'dates', 'count': 1200 if thorough else 50, 'timeout': 3000}
+        if zones[p % len(zones)]:
+            sp['env'] = {'TZ': zones[p % len(zones)]}
+        shards.append(sp)
+    return shards
+
+
+def dst_round(mon, rec, rng):
+    """host datetimes whose tzinfo has a variable offset (daylight saving rules): adding a timespan is wall-clock
+    arithmetic there, and it stays invertible - (d + t) - t = d, (d + t) - d = t, d - (d - t) = t"""
+    z = dtz.tzstr(rng.choice(['CET-1CEST,M3.5.0,M10.5.0/3', 'EST5EDT,M3.2.0,M11.1.0', 'AEST-10AEDT,M10.1.0,M4.1.0/3']))
+    y = rng.choice([2021, 2022, 2030])
+    d = datetime.datetime(y, rng.choice([3, 3, 10, 11, 4, 6]), rng.randrange(1, 29), rng.randrange(24), rng.choice([0, 30]), tzinfo=z)
+    t = datetime.timedelta(days=rng.choice([0, 1, 7, 30, 200]), hours=rng.choice([0, 1, 3, 23]), minutes=rng.choice([0, 30]))
+    if rng.random() < 0.3:
+        t = -t
+    for name, text, want in (('dst-plus-minus-self', '($d + $t) - $d = $t', True), ('dst-plus-minus', '(($d + $t) - $t) - $d = timespan(0)', True),
+                             ('dst-rev-plus', '($t + $d) - $d = $t', True), ('dst-minus-minus', '$d - ($d - $t) = $t', True)):
+        got = mon.run(text, {'d': d, 't': t})
+        rec.count('cases')
+        rec.count('fn.' + name)
+        rec.count('kind.aware-dst')
+        rec.case((text, repr(d), repr(t)))
+        if got == ('value', want):
+            rec.count('agree')
+        else:
+            rec.violation('date-law-broken:%s' % name, '%s with d=%r t=%r gives %r' % (text, d, t, got), {'kind': 'dst'})
 
 
 def run_shard(spec, rec):
+    import os
+    import time as _time
+    if os.environ.get('TZ'):
+        _time.tzset()
+        rec.count('zone.non-utc-process-shards')
     mon = Mon(rec)
     try:
         rng = rng_for(spec['seed'], 'c20', spec['name'])
         for i in range(spec['count']):
             one_round(mon, rec, rng, {'kind': 'round', 'shard': spec['name'], 'count': spec['count']})
+            dst_round(mon, rec, rng)
             if i % 20 == 0:
                 rec.sample({'round': i, 'shard': spec['name'], 'terms': ['$d.utc', '$d.timestamp', '($d + $t) - $t', '$d < $e']})
     finally:
